@@ -10,8 +10,8 @@ EXTENDS DSGSem, Json, IOUtils
 
 Traces == JsonDeserialize(IOEnv.TRACE_FILE)
 
-VARIABLES tid, l, objs, adm, fails, drift, seen, finals
-vars == <<tid, l, objs, adm, fails, drift, seen, finals>>
+VARIABLES tid, l, objs, adm, admS, fails, drift, seen, finals
+vars == <<tid, l, objs, adm, admS, fails, drift, seen, finals>>
 
 T == Traces[tid]
 G == T.g
@@ -48,9 +48,11 @@ ObsClauses(o, s) ==
         nodes == SeqSet(o.nodes)
     IN
     IF ~o.feasible THEN
-         (IF ExtensionExists(adm, s) THEN {"C06.infeasible_but_admissible_extension_exists"} ELSE {})
+         (IF ExtensionExists(adm, s) THEN {IF CcIds(G) = {} THEN "C06.infeasible_but_admissible_extension_exists"
+                                           ELSE "C11.scenario_lost_instance_reported_infeasible"} ELSE {})
     ELSE
-      (IF ~ExtensionExists(adm, s) /\ act = {} THEN {"C06.feasible_final_not_admissible"} ELSE {})
+      \* an instance that still has an open connection choice only claims selection-level admissibility
+      (IF act = {} /\ ~ExtensionExists(IF o.cc_left = <<>> THEN adm ELSE admS, s) THEN {"C06.feasible_final_not_admissible"} ELSE {})
       \cup
       (IF o.final THEN
             (IF act # {} THEN {"C02.final_but_active_choice_in_semantics"} ELSE {})
@@ -60,6 +62,8 @@ ObsClauses(o, s) ==
             \cup (IF act = {} /\ SeqSet(o.der) # ArchDerEdges(G, A) THEN {"C02.edges_not_closure_edges"} ELSE {})
        ELSE
             (IF o.next = <<>> /\ o.cc_left = <<>> THEN {"C02.stuck_not_final"} ELSE {})
+            \cup (IF o.sel_left = <<>> /\ act = {} /\ nodes # Reach(G, s) THEN {"C02.final_nodes_not_closure"} ELSE {})
+            \cup (IF o.sel_left = <<>> /\ act = {} /\ ~IncOK(G, nodes) THEN {"C06.conflict_in_feasible_final"} ELSE {})
             \cup UNION {IF ViableIn(adm, G, s, c) \subseteq OfferedSet(o, c) THEN {} ELSE {"C06.viable_option_not_offered"}
                         : c \in OfferedChoices(o) \cap act}
             \cup (IF OfferedChoices(o) \subseteq act THEN {} ELSE {"C02.next_choice_not_active_in_semantics"}))
@@ -69,6 +73,46 @@ DriftClauses(o, s) ==
     IF ~o.feasible THEN {}
     ELSE (IF SeqSet(o.conf) # Reach(G, s) THEN {"drift.confirmed_set"} ELSE {})
          \cup (IF ~o.final /\ OfferedChoices(o) # {c \in Active(G, s) : TRUE} THEN {"drift.next_choices"} ELSE {})
+
+
+\* ---- connection choice of a selection-final instance (C11) -----------------------------------------------------
+IdxOf(seq, x) == CHOOSE i \in DOMAIN seq : seq[i] = x
+CapDeclared(e, k) ==
+    [i \in DOMAIN CcSrcSeq(G, k) |-> [j \in DOMAIN CcTgtSeq(G, k) |->
+        LET sN == CcSrcSeq(G, k)[i]
+            tN == CcTgtSeq(G, k)[j]
+        IN IF sN \in SeqSet(e.srcn) /\ tN \in SeqSet(e.tgtn) THEN e.cap[IdxOf(e.srcn, sN)][IdxOf(e.tgtn, tN)] ELSE 0]]
+LimitsOK(e, k, A) ==
+    /\ Len(e.cap) = Len(e.srcn) /\ \A i \in DOMAIN e.cap : Len(e.cap[i]) = Len(e.tgtn)
+    /\ \A i \in DOMAIN e.srcn : \A j \in DOMAIN e.tgtn :
+         /\ (<<e.srcn[i], e.tgtn[j]>> \in ExclPairs(G, k) => e.cap[i][j] = 0)
+         /\ ((~ConnRep(G, A, e.srcn[i]) \/ ~ConnRep(G, A, e.tgtn[j])) => e.cap[i][j] <= 1)
+ConnClauses(e) ==
+    IF e.p \notin DOMAIN objs \/ e.c \notin CcIds(G) THEN {"machinery.bad_conn_event"}
+    ELSE LET s == objs[e.p]
+             A == Arch(G, s)
+             k == e.c
+         IN IF e.err # "" THEN {"C11.connection_sets_raised"}
+            ELSE IF SeqSet(e.srcn) # CcSrc(G, k) \cap A.nodes \/ SeqSet(e.tgtn) # CcTgt(G, k) \cap A.nodes
+                    \/ Cardinality(SeqSet(e.srcn)) # Len(e.srcn) \/ Cardinality(SeqSet(e.tgtn)) # Len(e.tgtn)
+                 THEN {"C11.present_connectors_differ"}
+            ELSE IF ~LimitsOK(e, k, A) THEN {"C11.excluded_or_parallel_limit_wrong"}
+            ELSE LET cap == CapDeclared(e, k)
+                     V == ValidConnSets(G, A, k, cap)
+                     O == {EdgeMatrix(G, k, e.offered[i]) : i \in DOMAIN e.offered}
+                 IN (IF V \subseteq O THEN {} ELSE {"C11.valid_connection_set_not_offered"})
+                    \cup (IF O \subseteq V THEN {} ELSE {"C11.invalid_connection_set_offered"})
+                    \cup (IF Cardinality(O) = Len(e.offered) THEN {} ELSE {"C11.connection_set_offered_twice"})
+                    \cup (IF \A i \in DOMAIN e.val : e.val[i].ok = (EdgeMatrix(G, k, e.val[i].edges) \in V) THEN {} ELSE {"C11.validate_disagrees"})
+                    \cup (IF \A i \in DOMAIN e.applied : e.applied[i].err = "" THEN {} ELSE {"C11.apply_raised"})
+                    \cup (IF \A i \in DOMAIN e.applied : e.applied[i].err # "" \/
+                               (/\ EdgeMatrix(G, k, EdgesOfChoice(G, k, e.applied[i].obs.con)) = EdgeMatrix(G, k, e.applied[i].edges)
+                                /\ Len(EdgesOfChoice(G, k, e.applied[i].obs.con)) = Len(e.applied[i].edges)
+                                /\ k \notin SeqSet(e.applied[i].obs.cc_left)
+                                /\ SeqSet(e.applied[i].obs.nodes) = A.nodes)
+                          THEN {} ELSE {"C11.applied_edges_differ"})
+                    \cup (IF \A i \in DOMAIN e.applied : e.applied[i].err # "" \/ e.applied[i].obs.feasible \/ e.applied[i].obs.cc_left # <<>> THEN {}
+                          ELSE {"C11.valid_set_gives_infeasible_instance"})
 
 \* what "the end result" of a resolution state is: for an infeasible object only the fact that it is infeasible
 Digest(o) == IF ~o.feasible THEN [feasible |-> FALSE]
@@ -97,10 +141,16 @@ OrderClause(s, o) == IF \E pr \in seen : pr[1] = s /\ pr[2] # Digest(o) THEN {"C
 Init == /\ tid \in DOMAIN Traces
         /\ l = 1
         /\ objs = <<>>
-        /\ adm = SelAdmissible(Traces[tid].g)
+        /\ admS = SelAdmissible(Traces[tid].g)
+        /\ adm = {A \in SelAdmissible(Traces[tid].g) : ConnFeasibleArch(Traces[tid].g, A)}
         /\ fails = {} /\ drift = {} /\ seen = {} /\ finals = {}
 
-Step == /\ l <= N
+ConnStep == /\ l <= N /\ Ev.e = "Conn"
+            /\ fails' = fails \cup Tag(ConnClauses(Ev))
+            /\ l' = l + 1
+            /\ UNCHANGED <<tid, objs, adm, admS, drift, seen, finals>>
+
+Step == /\ l <= N /\ Ev.e # "Conn"
         /\ LET e == Ev
                r == IF e.e = "Init" THEN InitResult(e) ELSE TakeResult(e)
                oc == IF r.ok THEN ObsClauses(e.obs, r.sel) \cup OrderClause(r.sel, e.obs) ELSE {}
@@ -108,20 +158,20 @@ Step == /\ l <= N
               /\ drift' = drift \cup (IF r.ok THEN Tag(DriftClauses(e.obs, r.sel)) ELSE {})
               /\ objs' = IF r.ok THEN (e.q :> r.sel) @@ objs ELSE objs
               /\ seen' = IF r.ok THEN seen \cup {<<r.sel, Digest(e.obs)>>} ELSE seen
-              /\ finals' = IF r.ok /\ e.obs.feasible /\ e.obs.final THEN finals \cup {Arch(G, r.sel)} ELSE finals
+              /\ finals' = IF r.ok /\ e.obs.feasible /\ e.obs.sel_left = <<>> /\ Active(G, r.sel) = {} THEN finals \cup {Arch(G, r.sel)} ELSE finals
         /\ l' = l + 1
-        /\ UNCHANGED <<tid, adm>>
+        /\ UNCHANGED <<tid, adm, admS>>
 
 \* end-of-trace completeness (C02 set equality / C06 nothing over-pruned): only when the exploration was complete
 Finish == /\ l = N + 1
           /\ fails' = fails \cup
                  (IF T.trunc THEN {}
-                  ELSE Tag((IF adm \subseteq finals THEN {} ELSE {"C06.admissible_architecture_unreachable"})
-                           \cup (IF finals \subseteq adm THEN {} ELSE {"C02.reached_final_not_admissible"})))
+                  ELSE Tag((IF adm \subseteq finals THEN {} ELSE {IF CcIds(G) = {} THEN "C06.admissible_architecture_unreachable" ELSE "C11.scenario_lost"})
+                           \cup (IF finals \subseteq admS THEN {} ELSE {"C02.reached_final_not_admissible"})))
           /\ l' = l + 1
-          /\ UNCHANGED <<tid, objs, adm, drift, seen, finals>>
+          /\ UNCHANGED <<tid, objs, adm, admS, drift, seen, finals>>
 
-Next == Step \/ Finish
+Next == Step \/ ConnStep \/ Finish
 Spec == Init /\ [][Next]_vars
 
 Report == (l = N + 2) =>
